@@ -81,7 +81,21 @@ package database
 //@   at after (*Meta).CheckPermission ghost sl = sub.local
 //@   at after (*Meta).CheckPermission ghost si = sub.internal
 //@   at send Feed assert ok && m0 == metaOf(value) && l0 == sl && i0 == si && value == r
-//@   loop 0 invariant rangeindex >= -1 && rangeindex <= 1<<48
+// C14: only records matching the subscription's query are offered, every subscriber that passes
+// both checks is offered the record exactly once per notification, and the offer never blocks
+//@   ghost var mt bool = false
+//@   ghost var mq *query.Query = nil
+//@   ghost var passes int = 0
+//@   ghost var offers int = 0
+//@   at after (*Query).Matches ghost mt = ret0
+//@   at after (*Query).Matches ghost mq = arg0
+//@   at after (*Query).Matches ghost passes = passes + ((ok && ret0) ? 1 : 0)
+//@   at call (*Query).Matches assert arg1 == r
+//@   at send Feed assert mt && mq == sub.q
+//@   at select Feed assert !blocking && passes == offers + 1
+//@   at select Feed ghost offers = offers + 1
+//@   at return assert passes == offers
+//@   loop 0 invariant rangeindex >= -1 && rangeindex <= 1<<48 && passes == offers
 
 // Put / PutNew: storage (or the write cache) is written only with all permissions or after
 // the existing record's metadata passed the permission check (getMeta) or does not exist
@@ -134,3 +148,166 @@ package database
 //@   nopanic off
 //@   modifies *
 //@   ensures r0 != nil && r0.options != nil && (opts == nil ==> !r0.options.Local && !r0.options.Internal) && (opts != nil ==> r0.options == opts)
+
+// ---- C14: subscriptions and hooks
+
+// the controller registry only holds controllers (its writers store newController / injected ones)
+//@ func getController
+//@   trusted
+//@   modifies *
+//@   ensures r1 == nil ==> r0 != nil
+
+// Cancel removes and closes this subscription (not another one that happens to share the query)
+//@ func (*Subscription).Cancel
+//@   requires s != nil
+//@   nopanic off
+//@   modifies *
+//@   at close assert chan == s.Feed && sub == s
+//@   loop 0 invariant true
+
+//@ func (*RegisteredHook).Cancel
+//@   requires h != nil
+//@   nopanic off
+//@   modifies *
+//@   at store hooks assert hook == h
+//@   loop 0 invariant true
+
+//@ func RegisterHook
+//@   nopanic off
+//@   modifies *
+//@   ensures r1 == nil ==> r0 != nil && r0.q == q && r0.h == hook
+//@   ensures r1 != nil ==> r0 == nil
+
+// hooks are called only in the phases they declare and only for matching keys/records;
+// the first hook error vetoes the operation and is the error returned
+//@ func (*Controller).runPreGetHooks
+//@   requires c != nil
+//@   nopanic off
+//@   modifies *
+//@   ghost var uses bool = false
+//@   ghost var mk bool = false
+//@   ghost var mq *query.Query = nil
+//@   ghost var hk Hook = nil
+//@   ghost var e error = nil
+//@   at after invoke.UsesPreGet ghost uses = ret0
+//@   at after invoke.UsesPreGet ghost hk = hook.h
+//@   at after (*Query).MatchesKey ghost mk = ret0
+//@   at after (*Query).MatchesKey ghost mq = arg0
+//@   at call (*Query).MatchesKey assert arg1 == key
+//@   at call invoke.PreGet assert uses && mk && mq == hook.q && hk == hook.h && arg0 == key
+//@   at after invoke.PreGet ghost e = ret0
+//@   ensures e != nil ==> r0 == e
+//@   ensures e == nil ==> r0 == nil
+//@   loop 0 invariant e == nil
+
+//@ func (*Controller).runPostGetHooks
+//@   requires c != nil
+//@   nopanic off
+//@   modifies *
+//@   ghost var uses bool = false
+//@   ghost var mt bool = false
+//@   ghost var mq *query.Query = nil
+//@   ghost var mr record.Record = nil
+//@   ghost var hk Hook = nil
+//@   ghost var e error = nil
+//@   ghost var cur record.Record = nil
+//@   ghost var first record.Record = r
+//@   ghost var called bool = false
+//@   at after invoke.UsesPostGet ghost uses = ret0
+//@   at after invoke.UsesPostGet ghost hk = hook.h
+//@   at after (*Query).Matches ghost mt = ret0
+//@   at after (*Query).Matches ghost mq = arg0
+//@   at after (*Query).Matches ghost mr = arg1
+//@   at call invoke.PostGet assert uses && mt && mq == hook.q && hk == hook.h && mr == arg0 && arg0 == (called ? cur : first)
+//@   at after invoke.PostGet ghost cur = ret0
+//@   at after invoke.PostGet ghost e = ret1
+//@   at after invoke.PostGet ghost called = true
+//@   ensures e != nil ==> r1 == e && r0 == nil
+//@   ensures e == nil ==> r1 == nil && r0 == (called ? cur : first)
+//@   loop 0 invariant e == nil
+//@   loop 0 invariant r == (called ? cur : first)
+
+//@ func (*Controller).runPrePutHooks
+//@   requires c != nil
+//@   nopanic off
+//@   modifies *
+//@   ghost var uses bool = false
+//@   ghost var mt bool = false
+//@   ghost var mq *query.Query = nil
+//@   ghost var mr record.Record = nil
+//@   ghost var hk Hook = nil
+//@   ghost var e error = nil
+//@   ghost var cur record.Record = nil
+//@   ghost var first record.Record = r
+//@   ghost var called bool = false
+//@   at after invoke.UsesPrePut ghost uses = ret0
+//@   at after invoke.UsesPrePut ghost hk = hook.h
+//@   at after (*Query).Matches ghost mt = ret0
+//@   at after (*Query).Matches ghost mq = arg0
+//@   at after (*Query).Matches ghost mr = arg1
+//@   at call invoke.PrePut assert uses && mt && mq == hook.q && hk == hook.h && mr == arg0 && arg0 == (called ? cur : first)
+//@   at after invoke.PrePut ghost cur = ret0
+//@   at after invoke.PrePut ghost e = ret1
+//@   at after invoke.PrePut ghost called = true
+//@   ensures e != nil ==> r1 == e && r0 == nil
+//@   ensures e == nil ==> r1 == nil && r0 == (called ? cur : first)
+//@   loop 0 invariant e == nil
+//@   loop 0 invariant r == (called ? cur : first)
+
+// Get: the storage is only read after the pre-get hooks agreed; the record handed out is the post-get hooks' result
+//@ func (*Controller).Get
+//@   requires c != nil
+//@   nopanic off
+//@   modifies *
+//@   ghost var pre error = nil
+//@   ghost var preDone bool = false
+//@   ghost var stored record.Record = nil
+//@   ghost var post record.Record = nil
+//@   ghost var postErr error = nil
+//@   ghost var postDone bool = false
+//@   at after (*Controller).runPreGetHooks ghost pre = ret0
+//@   at after (*Controller).runPreGetHooks ghost preDone = true
+//@   at call invoke.Get assert preDone && pre == nil && arg0 == key
+//@   at after invoke.Get ghost stored = ret0
+//@   at call (*Controller).runPostGetHooks assert arg1 == stored
+//@   at after (*Controller).runPostGetHooks ghost post = ret0
+//@   at after (*Controller).runPostGetHooks ghost postErr = ret1
+//@   at after (*Controller).runPostGetHooks ghost postDone = true
+//@   ensures r1 == nil ==> postDone && postErr == nil && r0 == post
+//@   ensures preDone && pre != nil ==> r1 == pre && r0 == nil
+//@   ensures postDone && postErr != nil ==> r1 == postErr && r0 == nil
+
+// Put: the storage is only written after the pre-put hooks agreed, with the record they returned;
+// subscribers are notified only after the storage accepted the write, with the stored record
+//@ func (*Controller).Put
+//@   requires c != nil
+//@   nopanic off
+//@   modifies *
+//@   ghost var hooked record.Record = nil
+//@   ghost var hookErr error = nil
+//@   ghost var hookDone bool = false
+//@   ghost var stErr error = nil
+//@   ghost var stRec record.Record = nil
+//@   ghost var wrote int = 0
+//@   ghost var notified int = 0
+//@   at after (*Controller).runPrePutHooks ghost hooked = ret0
+//@   at after (*Controller).runPrePutHooks ghost hookErr = ret1
+//@   at after (*Controller).runPrePutHooks ghost hookDone = true
+//@   at call invoke.Put assert hookDone && hookErr == nil && arg0 == hooked
+//@   at after invoke.Put ghost stRec = ret0
+//@   at after invoke.Put ghost stErr = ret1
+//@   at after invoke.Put ghost wrote = wrote + 1
+//@   at call invoke.Delete assert hookDone && hookErr == nil
+//@   at after invoke.Delete ghost stErr = ret0
+//@   at after invoke.Delete ghost stRec = hooked
+//@   at after invoke.Delete ghost wrote = wrote + 1
+//@   at call (*Controller).notifySubscribers assert wrote == 1 && stErr == nil && arg1 == stRec && arg0 == c
+//@   at call (*Controller).notifySubscribers ghost notified = notified + 1
+//@   ensures hookDone && hookErr != nil ==> err == hookErr && wrote == 0 && notified == 0
+//@   ensures err == nil ==> wrote == 1 && notified == 1
+//@   ensures err != nil ==> notified == 0
+
+//@ func (*Controller).PushUpdate
+//@   nopanic off
+//@   modifies *
+//@   at call (*Controller).notifySubscribers assert arg0 == c && arg1 == r && c != nil
